@@ -177,6 +177,17 @@ impl Obs {
     }
 }
 
+/// Debug renderings under several format specs (the spec must reach the value)
+fn dbgs<T: Debug + ?Sized>(t: &T) -> [String; 6] {
+    [format!("{:?}", t), format!("{:#?}", t), format!("{:7?}", t), format!("{:+?}", t), format!("{:#x?}", t), format!("{:<9.2?}|", t)]
+}
+
+#[derive(Debug)]
+enum UnionRef<A, B> {
+    First(A),
+    Second(B),
+}
+
 /// eq / ne / Debug on a pair of handles `a`,`b` against reference verdict and formatting
 macro_rules! check_eq {
     ($o:expr, $a:expr, $b:expr, $eq_ref:expr, $licence:expr, $dbg_ref_a:expr) => {{
@@ -281,6 +292,9 @@ macro_rules! class_impl {
                         let b = if same_ok { a.clone() } else { Arc::new(ty.clone()) };
                         let eq = check_eq!(o, a, b, eq_t, lic, format!("{:?}", tx));
                         let _ = eq;
+                        if dbgs(&a) != dbgs(&tx) {
+                            o.fail("Debug-spec", format!("{:?} vs {:?}", dbgs(&a), dbgs(&tx)));
+                        }
                         class_impl!(@partial $partial, o, a, b, tx.partial_cmp(&ty), lic, eq);
                         class_impl!(@total $total, o, a, b, tx, ty);
                         class_impl!(@hash $hash, o, a, b, stream(&tx), eq);
@@ -295,6 +309,9 @@ macro_rules! class_impl {
                         let lic = same_ok && !x.s.iter().all(|e| e.reflexive());
                         let eq = check_eq!(o, a, b, eq_s, lic, format!("{:?}", &x.s[..]));
                         let _ = eq;
+                        if dbgs(&a) != dbgs(&x.s[..]) {
+                            o.fail("Debug-spec", format!("{:?} vs {:?}", dbgs(&a), dbgs(&x.s[..])));
+                        }
                         class_impl!(@partial $partial, o, a, b, x.s[..].partial_cmp(&y.s[..]), lic, eq);
                         class_impl!(@total $total, o, a, b, x.s[..], y.s[..]);
                         class_impl!(@hash $hash, o, a, b, stream(&x.s[..]), eq);
@@ -303,8 +320,11 @@ macro_rules! class_impl {
                         let a = Arc::from_header_and_slice(x.h, &x.s);
                         let b = if same_ok { a.clone() } else { Arc::from_header_and_slice(y.h, &y.s) };
                         let bare = HeaderSlice { header: x.h, slice: &x.s[..] };
-                        let eq = check_eq!(o, a, b, eq_t, lic, format!("{:?}", bare).replace("slice: [", "slice: [").to_string());
+                        let eq = check_eq!(o, a, b, eq_t, lic, format!("{:?}", bare));
                         let _ = eq;
+                        if dbgs(&a) != dbgs(&bare) {
+                            o.fail("Debug-spec", format!("{:?} vs {:?}", dbgs(&a), dbgs(&bare)));
+                        }
                         class_impl!(@partial $partial, o, a, b, (x.h, &x.s[..]).partial_cmp(&(y.h, &y.s[..])), lic, eq);
                         class_impl!(@total $total, o, a, b, (x.h, &x.s[..]), (y.h, &y.s[..]));
                         class_impl!(@hash $hash, o, a, b, stream(&(x.h, &x.s[..])), eq);
@@ -345,6 +365,9 @@ macro_rules! class_impl {
                         let bare = HeaderSlice { header: HeaderWithLength::new(x.h, x.s.len()), slice: &x.s[..] };
                         let eq = check_eq!(o, a, b, eq_t, lic, format!("{:?}", bare));
                         let _ = eq;
+                        if dbgs(&a) != dbgs(&bare) {
+                            o.fail("Debug-spec", format!("{:?} vs {:?}", dbgs(&a), dbgs(&bare)));
+                        }
                         class_impl!(@partial $partial, o, a, b, (x.h, &x.s[..]).partial_cmp(&(y.h, &y.s[..])), lic, eq);
                         class_impl!(@total $total, o, a, b, (x.h, &x.s[..]), (y.h, &y.s[..]));
                         class_impl!(@hash $hash, o, a, b, stream(&bare), eq);
@@ -353,6 +376,9 @@ macro_rules! class_impl {
                         let a = Arc::into_raw_offset(Arc::new(tx.clone()));
                         let b = if same_ok { a.clone() } else { Arc::into_raw_offset(Arc::new(ty.clone())) };
                         let _ = check_eq!(o, a, b, eq_t, lic, format!("{:?}", tx));
+                        if dbgs(&a) != dbgs(&tx) {
+                            o.fail("Debug-spec", format!("{:?} vs {:?}", dbgs(&a), dbgs(&tx)));
+                        }
                     }
                     6 => {
                         let aa = Arc::new(tx.clone());
@@ -361,6 +387,9 @@ macro_rules! class_impl {
                         let class = if !same_ok && eq_t { "equal-values-distinct-allocations" } else if same_ok { "same-allocation" } else { "different-values" };
                         let o2 = Obs { kind: o.kind, class: class.to_string() };
                         let _ = check_eq!(&o2, a, b, eq_t, lic, format!("{:?}", tx));
+                        if dbgs(&a) != dbgs(&tx) {
+                            Obs { kind: o.kind, class: "any".into() }.fail("Debug-spec", format!("{:?} vs {:?}", dbgs(&a), dbgs(&tx)));
+                        }
                     }
                     7 => {
                         type U<E> = ArcUnion<T2<E>, Vec<E>>;
@@ -390,6 +419,12 @@ macro_rules! class_impl {
                         let got = format!("{:?}", a);
                         if got != dv && got != de {
                             Obs { kind: o.kind, class: "any".into() }.fail("Debug", format!("union formats as {:?}; expected {:?} or {:?}", got, dv, de));
+                        }
+                        // every format spec must reach the value (bare value or the equivalent enum's rendering)
+                        let (rv, re) = if d.second_x { (dbgs(&x.s), dbgs(&UnionRef::<T2<E>, &Vec<E>>::Second(&x.s))) } else { (dbgs(&tx), dbgs(&UnionRef::<&T2<E>, Vec<E>>::First(&tx))) };
+                        let g = dbgs(&a);
+                        if g != rv && g != re {
+                            Obs { kind: o.kind, class: "any".into() }.fail("Debug-spec", format!("union formats as {:?}; expected {:?} or {:?}", g, rv, re));
                         }
                     }
                     8 => {
